@@ -23,21 +23,24 @@ META = {
         'pero_ocr/ocr_engine/transformer.py:CustomMultiheadAttention.infer', 'pero_ocr/ocr_engine/transformer.py:CustomMultiheadAttention.cached_forward',
         'pero_ocr/ocr_engine/transformer.py:DecoderLayer.infer', 'pero_ocr/ocr_engine/transformer.py:Decoder.infer',
         'pero_ocr/ocr_engine/transformer_ocr_engine.py:TransformerEngineLineOCR.postprocess_decoded',
+        'pero_ocr/ocr_engine/transformer_ocr_engine.py:TransformerEngineLineOCR.transcribe_batch',
     ],
     'bounds': {
         'quick': 'decoders of 1..2 layers, 1..2 heads, batch sizes 1..2, 3 decoding steps, encoder output of 2 positions, max_seq_len = steps + 3; histories: fresh model, '
                  'a previous batch of the same size, a previous batch of a different size, a previous batch that ran longer; postprocess_decoded on '
-                 'symbolic label sequences of length <= 3',
-        'thorough': '3 layers, 3 heads, batch size 3, 4 steps, encoder output of 3 positions',
+                 'symbolic label sequences of length <= 3; transcribe_batch: batches of 2 lines, length cap 2 (up to 3 decoding steps), 4 symbol classes',
+        'thorough': '3 layers, 3 heads, batch size 3, 4 steps, encoder output of 3 positions; transcribe_batch: (lines, length cap) in {(2, 2), (2, 3), (3, 2)}',
     },
     'assumptions': [
         'row-level semantics of torch: linear layers, layer norm, ReLU, soft-max, dot products and weighted sums act on whole rows and are deterministic functions of their arguments (uninterpreted); '
         'nn.MultiheadAttention.forward and the masked post-norm decoder layer are reference implementations written from the PyTorch documentation with the same functions',
         'floating-point round-off (cached and recomputed results differ in the last bits on real hardware) is outside',
-        'the encoder, the positional encoding and the greedy arg-max loop of transcribe_batch are outside (inputs to the decoder are arbitrary rows)',
+        'the encoder and the positional encoding are outside (inputs to the decoder are arbitrary rows)',
+        'transcribe_batch runs over an abstract network: the arg-max symbol of a line at a step is an uninterpreted function of the line and of the symbols fed to it so far '
+        '(that the real decoder has this form is what the decode tasks establish); claim: a line gets inside a batch the transcription it gets alone',
     ],
-    'outside': ['bit-identical floats', 'beam search (cache_index_select), reallocate_caches', 'the encoder and transcribe_batch\'s loop (termination by the length cap is read off the code, not encoded)'],
-    'stubs': ['torch, torch.nn, torch.nn.functional -> symx.rowtorch', 'torch.empty -> fresh stale constants'],
+    'outside': ['bit-identical floats', 'beam search (cache_index_select), reallocate_caches', 'the encoder; the logits returned by transcribe_batch'],
+    'stubs': ['torch, torch.nn, torch.nn.functional -> symx.rowtorch', 'torch.empty -> fresh stale constants', 'transcribe_batch: integer tensors as nested lists of symbolic integers, network -> uninterpreted functions'],
 }
 
 E = 2
@@ -57,6 +60,9 @@ def tasks(tier):
         for hist in ('fresh', 'same', 'different', 'longer'):
             ts.append({'mode': 'decode', 'layers': layers, 'heads': heads, 'N': N, 'steps': steps, 'S': S_, 'hist': hist})
     ts.append({'mode': 'postprocess', 'n': 3})
+    # the greedy loop of transcribe_batch: a line decoded inside a batch gets the transcription it gets when decoded alone
+    for N, cap in (((2, 2),) if tier == 'quick' else ((2, 2), (2, 3), (3, 2))):
+        ts.append({'mode': 'greedy', 'N': N, 'cap': cap})
     return ts
 
 
@@ -78,6 +84,8 @@ def _terms_with(e, prefixes):
 def run_task(task, patches=None):
     if task['mode'] == 'postprocess':
         return _run_post(task, patches)
+    if task['mode'] == 'greedy':
+        return _run_greedy(task, patches)
     mods = rt.make_torch()
     H = Harness(patches, shim_map=mods, extra_builtins={'print': lambda *a, **k: None})
     heads = task['heads']
@@ -111,16 +119,17 @@ def run_task(task, patches=None):
             mem0 = rows('prev_enc', S_, n0)
             x0 = rows('prev_x', t0, n0)
             for t in range(1, t0 + 1):
-                cached.infer(x0[:t], mem0, is_cached=True)
+                cached.infer(x0[:t].clone(), mem0.clone(), is_cached=True)
         mem = rows('enc', S_, N)
         x = rows('x', steps, N)
         plain = build()
         outs = []
         for t in range(1, steps + 1):
-            oc = cached.infer(x[:t], mem, is_cached=True)
-            ou = plain.infer(x[:t], mem, is_cached=False)
+            # every call gets its own input tensors, as the engine's embedding produces them (in-place writes into an input stay local)
+            oc = cached.infer(x[:t].clone(), mem.clone(), is_cached=True)
+            ou = plain.infer(x[:t].clone(), mem.clone(), is_cached=False)
             outs.append((oc, ou))
-        ref = rt.masked_decoder_reference(build(), x, mem)
+        ref = rt.masked_decoder_reference(build(), x.clone(), mem.clone())
         return outs, ref
 
     for p, res, exc in H.explore(body):
@@ -200,6 +209,256 @@ def _run_post(task, patches):
         cnt = sum(z3.If(c, 1, 0) for c in conds)
         H.claim(cnt == len(out), K + 'wrong-length', 'symbols lost or invented by post-processing', lambda m_: case(m_, got=[mv(m_, x) for x in out]))
         H.witness(lambda m_: case(m_, expect=[mv(m_, x) for x in out]))
+    return H.result()
+
+
+# -- transcribe_batch: the greedy loop over an abstract network ---------------------------------------------------------------
+
+class IT:
+    """small integer tensor (nested python lists of symbolic / concrete integers): just what transcribe_batch uses"""
+
+    def __init__(self, d, ncols=None):
+        self.d = d
+        self.device = 'cpu'
+        self.ncols = len(d[0]) if d and isinstance(d[0], list) else ncols      # width of a 2-D tensor, kept when it has no rows
+
+    @property
+    def shape(self):
+        sh, x = [], self.d
+        while isinstance(x, list):
+            sh.append(len(x))
+            x = x[0] if x else None
+        return tuple(sh)
+
+    def __len__(self):
+        return len(self.d)
+
+    def unsqueeze(self, dim):
+        assert dim == 0
+        return IT([self.d])
+
+    def to(self, *a, **k):
+        return self
+
+    def __iter__(self):
+        return iter([IT(x) if isinstance(x, list) else x for x in self.d])
+
+    def __getitem__(self, key):
+        if isinstance(key, tuple):
+            a, b = key
+            rows = self.d[a]
+            if isinstance(a, slice):
+                return IT([r[b] for r in rows])
+            r = rows[b]
+            return IT(r) if isinstance(r, list) else r
+        r = self.d[key]
+        if isinstance(key, slice):
+            return IT(r, self.ncols)
+        return IT(r) if isinstance(r, list) else r
+
+    def permute(self, a, b):
+        assert (a, b) == (1, 0)
+        rows = self.d
+        n = len(rows[0]) if rows else (self.ncols or 0)
+        return IT([[r[j] for r in rows] for j in range(n)], len(rows))
+
+    def _cmp(self, o, f):
+        return IT([f(x, o) for x in self.d])
+
+    def __ne__(self, o):
+        return self._cmp(o, lambda x, y: x != y)
+
+    def __eq__(self, o):
+        return self._cmp(o, lambda x, y: x == y)
+
+    def __lt__(self, o):
+        return self._cmp(o, lambda x, y: x < y)
+
+    def __le__(self, o):
+        return self._cmp(o, lambda x, y: x <= y)
+
+    def __gt__(self, o):
+        return self._cmp(o, lambda x, y: x > y)
+
+    def __ge__(self, o):
+        return self._cmp(o, lambda x, y: x >= y)
+
+    __hash__ = None
+
+    def __imul__(self, o):
+        out = []
+        for x, y in zip(self.d, o.d):
+            if isinstance(y, SB):
+                y = S(z3.If(y.e, 1, 0))
+            elif isinstance(y, bool):
+                y = int(y)
+            out.append(x * y)
+        self.d = out
+        return self
+
+
+class _Hist:
+    """label embeddings so far: one list of tokens per step"""
+
+    def __init__(self, steps, n=None):
+        self.steps = steps
+
+    def to(self, *a, **k):
+        return self
+
+    def unsqueeze(self, dim):
+        return self
+
+
+def _run_greedy(task, patches):
+    N, cap = task['N'], task['cap']
+    K = 'C20:greedy:'
+    BOUND, IGN = 2, 3
+    # the network: the arg-max symbol of a line is a function of that line and of the symbols it was fed so far
+    nets = [z3.Function('net_line_%d' % n, *([z3.IntSort()] * (cap + 3))) for n in range(N)]
+    PAD = -1
+
+    def sample(line, prefix):
+        args = [core.lift(x) if isinstance(x, S) else z3.IntVal(int(x)) for x in prefix] + [z3.IntVal(PAD)] * (cap + 2 - len(prefix))
+        v = nets[line](*args)
+        core.axiom(z3.And(v >= 0, v <= 3))
+        return S(v)
+
+    tmods = rt.make_torch()
+    torch = tmods['torch']
+    torch.long = 'long'
+
+    class _Lines:
+        def __init__(self, ids, shape):
+            self.ids, self.shape = ids, shape
+
+        def to(self, *a, **k):
+            return self
+
+        def float(self):
+            return self
+
+        def __itruediv__(self, o):
+            return self
+
+        def __len__(self):
+            return len(self.ids)
+
+    class _Enc:
+        def __init__(self, ids):
+            self.ids = ids
+            self.shape = (1, len(ids), 1)
+
+    class _Dec:
+        def __init__(self, hist, enc):
+            self.hist, self.enc = hist, enc
+
+    torch.from_numpy = lambda inp: _Lines(inp.ids, inp.shape)
+    torch.tensor = lambda x, dtype=None, device=None: IT(list(x))
+    torch.full = lambda shape, v, dtype=None, device=None: IT([v] * shape[0])
+    torch.empty = lambda shape, **k: _Hist([])
+
+    def cat(ts, dim=0):
+        ts = list(ts)
+        if isinstance(ts[0], _Hist):
+            return _Hist([st for t in ts for st in t.steps])
+        return IT([r for t in ts for r in t.d])
+    torch.cat = cat
+
+    def argmax(x, dim=-1):
+        assert isinstance(x, _Dec)
+        out = []
+        for pos, line in enumerate(x.enc.ids):
+            out.append(sample(line, [st[pos] for st in x.hist.steps]))
+        return IT(out)
+    torch.argmax = argmax
+
+    class _Stack:
+        def permute(self, *a):
+            return self
+    torch.stack = lambda xs: _Stack()
+    torch.no_grad = lambda: None
+    torch.device = lambda *a: 'cpu'
+
+    class _Net:
+        def encode(self, lines):
+            return _Enc(lines.ids)
+
+        def dec_embeder(self, tokens):
+            return _Hist([list(tokens.d)])
+
+        def pos_encoder(self, h):
+            return h
+
+        class trans_decoder:
+            @staticmethod
+            def infer(h, enc, is_cached=False):
+                return _Dec(h, enc)
+
+        def dec_out_proj(self, x):
+            return x
+
+    H = Harness(patches, shim_map=tmods, extra_builtins={'print': lambda *a, **k: None})
+    eng = H.load('pero_ocr.ocr_engine.transformer_ocr_engine')
+
+    class _Inp:
+        def __init__(self, ids):
+            self.ids = ids
+            self.shape = (len(ids), 3, 4, 4 * cap)
+
+        def __len__(self):
+            return len(self.ids)
+
+    def engine():
+        e = object.__new__(eng.TransformerEngineLineOCR)
+        e.device = 'cpu'
+        e.characters = ['a', 'b', '\u200b', '']
+        e.sentence_boundary_ind, e.ignore_ind = BOUND, IGN
+        e.net = _Net()
+        return e
+
+    state = {}
+
+    def case(m_, **kw):
+        # the symbols each line's network emits along its own greedy path (what a real stand-in network has to reproduce)
+        seqs = []
+        for n in range(N):
+            seq, prefix = [], [BOUND]
+            for t in range(cap + 2):
+                args = [z3.IntVal(int(x)) for x in prefix] + [z3.IntVal(PAD)] * (cap + 2 - len(prefix))
+                v = m_.eval(nets[n](*args), model_completion=True).as_long()
+                v = min(max(v, 0), 3)
+                seq.append(v)
+                prefix.append(v)
+                if len(prefix) > cap + 2:
+                    break
+            seqs.append(seq)
+        c = {'mode': 'greedy', 'N': N, 'cap': cap, 'samples': seqs}
+        c.update(kw)
+        return c
+
+    def body():
+        together = engine().transcribe_batch(_Inp(list(range(N))), is_cached=True)[0]
+        alone = [engine().transcribe_batch(_Inp([n]), is_cached=True)[0][0] for n in range(N)]
+        return together, alone
+
+    for p, res, exc in H.explore(body):
+        if exc is not None:
+            H.fail(K + 'exception:' + type(exc).__name__, 'raised %r' % (exc,), lambda m_: case(m_, error=repr(exc)[:300]))
+            continue
+        together, alone = res
+        for n in range(N):
+            a, b = list(together[n].d), list(alone[n].d)
+            if len(a) != len(b):
+                H.fail(K + 'batch-dependent', 'line %d gets %d symbols inside the batch and %d when decoded alone' % (n, len(a), len(b)), lambda m_: case(m_, line=n))
+                continue
+            if a:
+                H.claim(z3.And(*[core.lift(x) == core.lift(y) for x, y in zip(a, b)]), K + 'batch-dependent',
+                        'the transcription of line %d inside a batch differs from its transcription when decoded alone' % n, lambda m_: case(m_, line=n))
+            conj = [z3.And(core.lift(x) != BOUND, core.lift(x) != IGN) for x in a]
+            if conj:
+                H.claim(z3.And(*conj), K + 'boundary-or-ignore-kept', 'a transcription contains the boundary or the ignore symbol', lambda m_: case(m_, line=n))
+        H.witness(lambda m_: case(m_, expect=[[mv(m_, x) for x in together[n].d] for n in range(N)]))
     return H.result()
 
 
